@@ -30,19 +30,19 @@ type e1Profile struct {
 }
 
 var e1Profiles = map[string]e1Profile{
-	"C11": {prop: "C11", attackWeight: 30, steps: [2]int{30, 50}, concurrent: true, restartPct: 2, quickCases: 300, thoroughCases: 8000,
+	"C11": {prop: "C11", attackWeight: 30, steps: [2]int{30, 50}, concurrent: true, restartPct: 2, quickCases: 200, thoroughCases: 8000,
 		rule: "E1 histories with the harness as both view consumers (gossip reader and state-machine reader each randomly stalled and resumed, round entrances issued while views shift, nil / fully-voted / jumped rounds, replays), judged at the consumer side: per (height, round) strictly increasing versions, proposals and per-target signature sets only grow; when a round the harness ended by nil quorum or by a fully voted round is followed by a later round at the gossip reader, the justifying precommits must have arrived first; at quiescence (no output during 3 x 24 served snapshot requests) the last views each consumer holds equal the mirror's VotingView/CommittingView. Race detector sub-run (a view mutated after delivery is a race between kernel and reader). Non-trivial = distinct histories with >= 1 quiescence comparison and >= 20 received views judged."},
-	"C09": {prop: "C09", attackWeight: 65, steps: [2]int{40, 60}, concurrent: true, restartPct: 2, quickCases: 400, thoroughCases: 15000,
+	"C09": {prop: "C09", attackWeight: 65, steps: [2]int{40, 60}, concurrent: true, restartPct: 2, quickCases: 1000, thoroughCases: 20000,
 		rule: "E1 histories at full hostile width (every height/round offset -3..+3, every key-id length, every commit-proof shape, replays, state-machine entrances and actions), sequential then 2-6 concurrent deliverers, with stalled gossip/state-machine readers; two thirds of the messages go through the shipped AcceptAllValid/DropDuplicate feedback mappers. Monitors: hook Catch on the kernel goroutine and recover around every Handle* call (panic => violation keyed by site), logical livelock bound on HandleProposedHeader's restart label, defined-result and defined-feedback checks, liveness probe (VotingView must answer after every input). Non-trivial = distinct histories with >= 10 hostile messages handled."},
-	"C01": {prop: "C01", attackWeight: 45, steps: [2]int{30, 60}, concurrent: true, restartPct: 2, quickCases: 240, thoroughCases: 12000,
+	"C01": {prop: "C01", attackWeight: 45, steps: [2]int{30, 60}, concurrent: true, restartPct: 2, quickCases: 800, thoroughCases: 16000,
 		rule: "E1 histories (honest rounds, nil/split/jump rounds, replays, hostile proposals/votes/replays at offsets -3..+3 around the node's position, state-machine entrances and actions, restarts), sequential then concurrent phase; every commit event (SaveCommittedHeader, new committing view, accepted replay, RoundEntranceResponse.CH) judged by (a) crypto/ed25519 re-verification of the held certificate under the harness-prescribed validator set and (b) the ledger of valid precommits ever delivered. Non-trivial = distinct history digests with >= 1 commit event judged."},
-	"C04": {prop: "C04", attackWeight: 50, steps: [2]int{30, 60}, concurrent: true, restartPct: 4, quickCases: 240, thoroughCases: 12000,
+	"C04": {prop: "C04", attackWeight: 50, steps: [2]int{30, 60}, concurrent: true, restartPct: 4, quickCases: 800, thoroughCases: 16000,
 		rule: "E1 histories as for C01 with more restarts; store wrappers assert on every SaveCommittedHeader (top+1 or identical, hash-linked to predecessor) and SetNetworkHeightRound (positions monotone, voting = committing+1); whole chain reloaded and compared with the first-seen table after every step. Non-trivial = distinct histories with >= 2 committed heights and >= 1 hostile message for an already committed height."},
-	"C05": {prop: "C05", attackWeight: 60, steps: [2]int{30, 50}, concurrent: true, restartPct: 2, quickCases: 200, thoroughCases: 10000,
+	"C05": {prop: "C05", attackWeight: 60, steps: [2]int{30, 50}, concurrent: true, restartPct: 2, quickCases: 700, thoroughCases: 14000,
 		rule: "E1 histories weighted towards hostile vote messages; after every step each signature in the voting/committing views, in every view handed to gossip and the state machine, in the round store and in stored/built commit proofs is re-verified with crypto/ed25519 under the prescribed set, bit sets compared with verified signer sets; messages without any valid signature must leave views and round store byte-identical and must not be reported accepted. Non-trivial = distinct histories with >= 1 all-invalid message judged and >= 20 signatures re-verified."},
-	"C06": {prop: "C06", attackWeight: 55, steps: [2]int{30, 50}, concurrent: true, restartPct: 2, quickCases: 200, thoroughCases: 10000,
+	"C06": {prop: "C06", attackWeight: 55, steps: [2]int{30, 50}, concurrent: true, restartPct: 2, quickCases: 700, thoroughCases: 14000,
 		rule: "E1 histories weighted towards equivocation and multi-target votes over six power distributions; every vote summary seen (snapshots, gossip output, state-machine output) recomputed from bit sets and prescribed powers: available, per-target, total = power of the union of signers, most-voted is maximal; plus directed minority-only scenarios in which validators below 1/3 vote for many targets and rounds and the voting round must not move. Non-trivial = distinct histories with >= 1 summary over >= 2 targets judged."},
-	"C07": {prop: "C07", attackWeight: 50, steps: [2]int{30, 60}, concurrent: true, restartPct: 3, quickCases: 240, thoroughCases: 12000,
+	"C07": {prop: "C07", attackWeight: 50, steps: [2]int{30, 60}, concurrent: true, restartPct: 3, quickCases: 800, thoroughCases: 16000,
 		rule: "E1 histories on a chain whose validator keys, set size and powers change at every height, with forged copies (validator lists altered, hashes and signature kept) of proposals and replayed headers delivered before or after the original; the validator set of every observable view and of every committed header compared with the harness-prescribed set and re-hashed. Non-trivial = distinct histories with >= 1 commit followed by a validator-set change."},
 }
 
